@@ -8,6 +8,13 @@ from pathlib import Path
 
 VERIF = Path(__file__).resolve().parent.parent
 NOTES = {
+    "C04-r3change1": "missed at first: every ELAPSE in the generated plans was a whole number of ms; the plan generator now also draws off-grid times (fractions of a ms, times a hair above / below a tick boundary)",
+    "C06-r3change1": "missed at first: same as C04-r3change1 — off-grid ELAPSE times in the generated plans",
+    "C06-r3change2": "missed at first: what RESOLVE should replay was read back from the engine's own buffer; the check now keeps its own record of the events of the last play",
+    "C14-r3change1": "missed at first: only the renderer of the model's canonical text was compared; plans written through the API's own plan writer are now parsed back as well",
+    "C14-r3change2": "missed at first: each text was parsed by a fresh parser state; a valid text is now also parsed straight after a text the parser rejects, and the two results compared",
+    "C20-r3change1": "missed at first: every request was a new provider object; the star pattern now also edits ONE provider object in place (nested containers too) between requests on one memoizer handle, and an answer that did not go through memoize() is judged like any other answer",
+    "C20-r3change2": "first reported without a failing input: the key-collision probe now also moves one number inside the stat / action_stat blocks by 4e-7, 1e-9, 1e-3 and one ulp (a shadowed variable had hidden these candidates); two characters that differ by that much then share a memo entry and the second answer is the first's",
     "C01-r3change1": "missed at first: the plans were built from separate command objects and the recorded logs were cut out of the FINISHED straight run; the plan generator now repeats THE SAME Operation object as `xN <op>` does in a plan text (preferably RESOLVE of a key-down skill), and a third resume mode records the logs when the run is at the cut (another engine runs the first k commands and its logs are dumped then)",
     "C10-r3change1": "missed at first: the views were only read going forward; after each plan the engine is rolled back (after the views were read), and what the viewer shows is compared with a fresh engine that ran the surviving commands; skills listed valid there are used on a fork",
     "C13-r3change1": "missed at first: reports were only taken from forward runs; the report after rollback + other commands is now compared with the report of a fresh engine that executed the surviving commands",
